@@ -26,7 +26,7 @@ func mkNLV(init [][2]string) ap.NaturalLanguageValues {
 	return n
 }
 
-func dumpNLV(n ap.NaturalLanguageValues) [][2]string {
+func dumpNLVPairs(n ap.NaturalLanguageValues) [][2]string {
 	out := make([][2]string, 0, len(n))
 	for _, e := range n {
 		out = append(out, [2]string{string(e.Ref), string(e.Value)})
@@ -118,7 +118,7 @@ func runNLVCase(cs nlvCase) (res map[string]interface{}, violated string) {
 	if pan {
 		return map[string]interface{}{"panic": true}, "panic: " + msg
 	}
-	return map[string]interface{}{"outs": outs, "final": dumpNLV(n)}, violated
+	return map[string]interface{}{"outs": outs, "final": dumpNLVPairs(n)}, violated
 }
 
 func sameEntries(a, b ap.NaturalLanguageValues) bool {
